@@ -28,9 +28,10 @@ Theorem C03_compile_total : forall e, parser_tree e ->
   forall o clk site, compile e o clk <> CPanic site.
 Proof. exact compile_no_panic. Qed.
 
-(** rendering a compiled program is a total function *)
-Theorem C03_render_total : forall c mdt, exists text, scheme_text c mdt = text.
-Proof. exact render_total. Qed.
+(** rendering: [scheme_text] and [render] are plain total functions of the model -- their type has
+    no panic outcome, the Rust [scheme()] being one [format!] over already built strings -- so there
+    is nothing to state here that would not be vacuous; what the rendered text IS, for every
+    compiled program and device path, is C04_reads_back and C20_text_split *)
 
 (** both kinds of error render to a non-empty text *)
 Theorem C03_display_total :
